@@ -8,6 +8,8 @@ import Proofs.Toks
 import Proofs.TokCore
 import Proofs.Resolve
 import Proofs.Range
+import Proofs.Traverse
+import Proofs.ResolveNodes
 namespace PM.C09
 open PM
 
@@ -417,5 +419,317 @@ theorem textBetweenSepRes_ok (S : Schema) (kids : List Node) (f t : Nat) (sep : 
     · rename_i hle
       simp only [Except.ok.injEq] at h
       exact ⟨h.symm, by omega⟩
+
+/-! ### nodes_between: completeness
+
+  `descendants kids 0 0` (Proofs/Traverse.lean) lists every node below `kids` in pre-order as
+  `(node, position, index in its parent)`.  `descendants_tokens` pins that list to the token
+  sequence (so it is not a trusted definition); `nodesBetween_complete` says the traversal visits
+  exactly the listed nodes that overlap the range, once each and in document order. -/
+
+/-- the overlap test of `nodes_between`: the node starts before `to` and ends after `from` -/
+def overlaps (f t : Nat) (x : Node × Nat × Nat) : Bool :=
+  decide (x.2.1 < t) && decide (f < x.2.1 + x.1.size)
+
+/-- **the pre-order list is the token picture**: each listed node's tokens are the document's
+    tokens at its position; every `op`/`leaf` token is the first token of a listed element/leaf and
+    every `unit` token lies in a listed text node (`Covers`); the list is in document order; each
+    listed node is child `index` of the list or of a listed element, at the position that follows
+    from the sizes of its left siblings (`ChildOf`) -/
+theorem descendants_tokens (kids : List Node) :
+    (∀ x ∈ descendants kids 0 0,
+      window (ftoks kids) x.2.1 x.1.size = x.1.toks ∧ x.2.1 + x.1.size ≤ fsize kids) ∧
+    (∀ q tok, (ftoks kids)[q]? = some tok → Covers kids 0 0 q tok) ∧
+    (descendants kids 0 0).Pairwise DocBefore ∧
+    (∀ x ∈ descendants kids 0 0, ChildOf kids 0 0 x) := by
+  refine ⟨fun x hx => ?_, fun q tok h => descendants_covers kids 0 0 q tok h,
+    descendants_ordered kids 0 0, fun x hx => descendants_childOf kids 0 0 x hx⟩
+  obtain ⟨q, h1, h2⟩ := descendants_tokAt kids 0 0 x hx
+  have hb := (descendants_bounds kids 0 0 x hx).2
+  rw [Nat.zero_add] at h1 hb
+  rw [h1]
+  exact ⟨h2, by omega⟩
+
+/-- **nodes_between is complete**: (1) the visited list is a sub-list of the pre-order list (document
+    order, nobody twice); (2) restricted to nodes with at least one token — everything except empty
+    text nodes — it *equals* the pre-order list filtered by the overlap test; (3) so such a node is
+    visited iff it is a node of the document and overlaps the range (its ancestors then overlap too
+    and are visited before it); (4) positions never decrease along the visit and strictly increase
+    among nodes with a token, so each is visited exactly once; (5) without empty text nodes (every
+    normal-form document) the visited list is exactly the filtered pre-order list.
+    Empty text nodes are excluded because the code clips `from - start` at 0 and `to - start` at the
+    parent's size, which loses them at the edges of their parent. -/
+theorem nodesBetween_complete (kids : List Node) (f t : Nat) :
+    (nodesBetween kids f t 0 0).Sublist (descendants kids 0 0) ∧
+    (nodesBetween kids f t 0 0).filter nzNode =
+      (descendants kids 0 0).filter (fun x => nzNode x && overlaps f t x) ∧
+    (∀ x : Node × Nat × Nat, x.1.size ≠ 0 →
+      (x ∈ nodesBetween kids f t 0 0 ↔
+        x ∈ descendants kids 0 0 ∧ x.2.1 < t ∧ f < x.2.1 + x.1.size)) ∧
+    (nodesBetween kids f t 0 0).Pairwise DocBefore ∧
+    ((nodesBetween kids f t 0 0).filter nzNode).Pairwise (fun x y => x.2.1 < y.2.1) ∧
+    (NoEmptyText kids →
+      nodesBetween kids f t 0 0 = (descendants kids 0 0).filter (overlaps f t)) := by
+  have hsub := nodesBetween_sublist kids f t 0 0
+  have hord := (descendants_ordered kids 0 0).sublist hsub
+  have hwin : ∀ x, inWin 0 f t x = (nzNode x && overlaps f t x) := by
+    intro x; simp [inWin, overlaps, Bool.and_assoc]
+  refine ⟨hsub, ?_, fun x hx => ?_, hord, ?_, fun hne => ?_⟩
+  · rw [nodesBetween_filter]; exact List.filter_congr (fun x _ => hwin x)
+  · have := mem_nodesBetween_iff kids f t 0 0 x hx
+    simpa using this
+  · have h1 : ((nodesBetween kids f t 0 0).filter nzNode).Pairwise DocBefore :=
+      hord.sublist List.filter_sublist
+    refine h1.imp_of_mem (fun {x y} hx _ hxy => ?_)
+    have : x.1.size ≠ 0 := by simpa [nzNode] using (List.mem_filter.mp hx).2
+    exact hxy.2 this
+  · rw [nodesBetween_eq_filter kids f t hne]
+    apply List.filter_congr
+    intro x hx
+    have : nzNode x = true := by simpa [nzNode] using hne x hx
+    rw [hwin, this, Bool.true_and]
+
+/-- **ancestors**: when a listed node overlaps the range, so does the listed element it is a child
+    of (`ChildOf`, second case) — and that element comes earlier in the list, so by
+    `nodesBetween_complete` it is visited, and visited first -/
+theorem overlaps_parent (f t : Nat) (x e : Node × Nat × Nat)
+    (hc : e.1.kids[x.2.2]? = some x.1) (hp : x.2.1 = e.2.1 + 1 + fsize (e.1.kids.take x.2.2))
+    (hov : x.2.1 < t ∧ f < x.2.1 + x.1.size) :
+    e.2.1 < t ∧ f < e.2.1 + e.1.size ∧ e.1.size ≠ 0 ∧ e.2.1 < x.2.1 := by
+  have hb := child_size_le _ _ _ hc
+  obtain ⟨n, p, i⟩ := e
+  cases n with
+  | text s m => simp [Node.kids] at hc
+  | leaf ty a m => simp [Node.kids] at hc
+  | elem ty a m ks =>
+    simp only [Node.kids, Node.size_elem] at hb hp hov ⊢
+    omega
+
+/-- normal-form documents have no empty text nodes -/
+theorem noEmptyText_of_norm (kids : List Node) (h : fnorm kids = true) : NoEmptyText kids :=
+  PM.noEmptyText_of_norm kids h
+
+example : NoEmptyText [.elem 1 [] [] [.text [97, 98] [], .leaf 2 [] []], .elem 1 [] [] []] := by
+  simp [NoEmptyText, descendants_cons]
+
+/-- **completeness, token by token**: the element opened by an `op` token at index `q` is visited
+    iff `q < to` and its close token is at or after `from`; a leaf iff `from ≤ q < to`; the text node
+    holding a `unit` token iff its unit range meets `[from, to)` -/
+theorem nodesBetween_token_complete (kids : List Node) (f t q : Nat) (tok : Tok)
+    (h : (ftoks kids)[q]? = some tok) :
+    match tok with
+    | .op ty a m => ∃ ks i, (Node.elem ty a m ks, q, i) ∈ descendants kids 0 0 ∧
+        ((Node.elem ty a m ks, q, i) ∈ nodesBetween kids f t 0 0 ↔ q < t ∧ f < q + (2 + fsize ks))
+    | .leaf ty a m => ∃ i, (Node.leaf ty a m, q, i) ∈ descendants kids 0 0 ∧
+        ((Node.leaf ty a m, q, i) ∈ nodesBetween kids f t 0 0 ↔ f ≤ q ∧ q < t)
+    | .unit u m => ∃ s p i, (Node.text s m, p, i) ∈ descendants kids 0 0 ∧
+        p ≤ q ∧ q < p + s.length ∧ s[q - p]? = some u ∧
+        ((Node.text s m, p, i) ∈ nodesBetween kids f t 0 0 ↔ p < t ∧ f < p + s.length)
+    | .cl => True := by
+  have hc := descendants_covers kids 0 0 q tok h
+  cases tok with
+  | op ty a m =>
+    obtain ⟨ks, i, hm⟩ := hc
+    rw [Nat.zero_add] at hm
+    refine ⟨ks, i, hm, ?_⟩
+    rw [mem_nodesBetween_iff kids f t 0 0 _ (by simp)]
+    simp [hm]
+  | leaf ty a m =>
+    obtain ⟨i, hm⟩ := hc
+    rw [Nat.zero_add] at hm
+    refine ⟨i, hm, ?_⟩
+    rw [mem_nodesBetween_iff kids f t 0 0 _ (by simp)]
+    simp only [hm, true_and, Node.size_leaf, Nat.zero_add]
+    omega
+  | unit u m =>
+    obtain ⟨s, p, i, hm, h1, h2, h3⟩ := hc
+    rw [Nat.zero_add] at hm
+    refine ⟨s, p, i, hm, h1, h2, h3, ?_⟩
+    rw [mem_nodesBetween_iff kids f t 0 0 _ (by simp only [Node.size_text]; omega)]
+    simp [hm]
+  | cl => trivial
+
+/-! ### range_has_mark -/
+
+/-- `range_has_mark` is false on an empty or inverted range, whatever the document -/
+theorem rangeHasMark_empty (kids : List Node) (f t : Nat) (m : Mark) (ty : MarkTypeId) (h : t ≤ f) :
+    rangeHasMark kids f t m = false ∧ rangeHasMarkType kids f t ty = false := by
+  simp [rangeHasMark, rangeHasMarkType, Nat.not_lt.mpr h]
+
+/-- **range_has_mark, by nodes**: true iff the range is non-empty and some node of the document
+    that overlaps it (same test as `nodes_between`; *every* visited node is inspected, block nodes
+    included) carries the mark — resp. a mark of the type.  `NoEmptyText`: see
+    `nodesBetween_complete`; it holds for every normal-form document. -/
+theorem rangeHasMark_spec (kids : List Node) (f t : Nat) (m : Mark) (ty : MarkTypeId)
+    (hne : NoEmptyText kids) :
+    (rangeHasMark kids f t m = true ↔ f < t ∧ ∃ x ∈ descendants kids 0 0,
+        x.2.1 < t ∧ f < x.2.1 + x.1.size ∧ m.isInSet x.1.marks = true) ∧
+    (rangeHasMarkType kids f t ty = true ↔ f < t ∧ ∃ x ∈ descendants kids 0 0,
+        x.2.1 < t ∧ f < x.2.1 + x.1.size ∧ ∃ mk ∈ x.1.marks, mk.ty = ty) := by
+  constructor
+  · unfold rangeHasMark
+    rw [Bool.and_eq_true, decide_eq_true_eq, any_visited_iff kids f t (fun n => m.isInSet n.marks) hne]
+  · unfold rangeHasMarkType
+    rw [Bool.and_eq_true, decide_eq_true_eq,
+      any_visited_iff kids f t (fun n => (markTypeIsInSet ty n.marks).isSome) hne]
+    simp [markTypeIsInSet]
+
+/-- **range_has_mark, by tokens**: true iff the range is non-empty and a text unit or leaf token
+    inside `[from, to)` carries the mark, or an element overlapping the range does (its `op` token is
+    before `to` and its close token at or after `from`) -/
+theorem rangeHasMark_tokens (kids : List Node) (f t : Nat) (m : Mark) (hne : NoEmptyText kids) :
+    rangeHasMark kids f t m = true ↔ f < t ∧
+      ((∃ q u ms, f ≤ q ∧ q < t ∧ (ftoks kids)[q]? = some (Tok.unit u ms) ∧ m.isInSet ms = true) ∨
+       (∃ q ty a ms, f ≤ q ∧ q < t ∧ (ftoks kids)[q]? = some (Tok.leaf ty a ms) ∧ m.isInSet ms = true) ∨
+       (∃ q ty a ms ks i, (Node.elem ty a ms ks, q, i) ∈ descendants kids 0 0 ∧
+          q < t ∧ f < q + (2 + fsize ks) ∧ m.isInSet ms = true)) := by
+  unfold rangeHasMark
+  rw [Bool.and_eq_true, decide_eq_true_eq]
+  constructor
+  · rintro ⟨hft, h⟩
+    exact ⟨hft, (any_visited_tokens kids f t (fun ms => m.isInSet ms) hft hne).mp h⟩
+  · rintro ⟨hft, h⟩
+    exact ⟨hft, (any_visited_tokens kids f t (fun ms => m.isInSet ms) hft hne).mpr h⟩
+
+/-- the same for a mark *type* -/
+theorem rangeHasMarkType_tokens (kids : List Node) (f t : Nat) (ty : MarkTypeId) (hne : NoEmptyText kids) :
+    rangeHasMarkType kids f t ty = true ↔ f < t ∧
+      ((∃ q u ms, f ≤ q ∧ q < t ∧ (ftoks kids)[q]? = some (Tok.unit u ms) ∧ ∃ mk ∈ ms, mk.ty = ty) ∨
+       (∃ q ty' a ms, f ≤ q ∧ q < t ∧ (ftoks kids)[q]? = some (Tok.leaf ty' a ms) ∧ ∃ mk ∈ ms, mk.ty = ty) ∨
+       (∃ q ty' a ms ks i, (Node.elem ty' a ms ks, q, i) ∈ descendants kids 0 0 ∧
+          q < t ∧ f < q + (2 + fsize ks) ∧ ∃ mk ∈ ms, mk.ty = ty)) := by
+  unfold rangeHasMarkType
+  rw [Bool.and_eq_true, decide_eq_true_eq]
+  have key := fun hft => any_visited_tokens kids f t (fun ms => (markTypeIsInSet ty ms).isSome) hft hne
+  simp only [markTypeIsInSet, List.find?_isSome, beq_iff_eq] at key
+  constructor
+  · rintro ⟨hft, h⟩
+    exact ⟨hft, (key hft).mp h⟩
+  · rintro ⟨hft, h⟩
+    exact ⟨hft, (key hft).mpr h⟩
+
+/-- without the no-empty-text guard: a node with a token that overlaps the range and carries the
+    mark makes `range_has_mark` true -/
+theorem rangeHasMark_of_node (kids : List Node) (f t : Nat) (m : Mark) (hft : f < t)
+    (x : Node × Nat × Nat) (hx : x ∈ descendants kids 0 0) (hz : x.1.size ≠ 0)
+    (h1 : x.2.1 < t) (h2 : f < x.2.1 + x.1.size) (hm : m.isInSet x.1.marks = true) :
+    rangeHasMark kids f t m = true := by
+  unfold rangeHasMark
+  rw [Bool.and_eq_true, decide_eq_true_eq, List.any_eq_true]
+  exact ⟨hft, x, (mem_nodesBetween_iff kids f t 0 0 x hz).mpr ⟨hx, by omega, by omega⟩, hm⟩
+
+/-! ### node_before, node_after, marks() -/
+
+/-- **node_after / node_before**: at a child boundary (`textOffset = 0`) they are the child starting
+    resp. ending there (none at the end resp. start of the parent); inside a text child they are
+    that text cut at the offset (the cut raises when it would split a surrogate pair: `none`).
+    On tokens: the node after spells the tokens from the position on, the node before the tokens up
+    to it, both inside the parent. -/
+theorem nodeBefore_nodeAfter_spec (doc : Node) (pos : Nat) (r : RPos) (h : doc.resolve pos = some r) :
+    (r.textOffset = 0 →
+      r.nodeAfter = r.parent.kids[r.index r.depth]? ∧
+      r.nodeBefore = (if r.index r.depth = 0 then none else r.parent.kids[r.index r.depth - 1]?) ∧
+      (r.nodeAfter = none ↔ r.index r.depth = r.parent.kids.length) ∧
+      (r.nodeBefore = none ↔ r.index r.depth = 0) ∧
+      (r.index r.depth = r.parent.kids.length → pos = r.end_ r.depth) ∧
+      (r.index r.depth = 0 → pos = r.start r.depth)) ∧
+    (r.textOffset ≠ 0 → ∃ s m, r.parent.kids[r.index r.depth]? = some (.text s m) ∧
+      r.textOffset < s.length ∧
+      r.nodeAfter = (if splitOk s r.textOffset then some (.text (s.drop r.textOffset) m) else none) ∧
+      r.nodeBefore = (if splitOk s r.textOffset then some (.text (s.take r.textOffset) m) else none)) ∧
+    (∀ a, r.nodeAfter = some a →
+      window (ftoks doc.kids) pos a.size = a.toks ∧ pos + a.size ≤ r.end_ r.depth) ∧
+    (∀ b, r.nodeBefore = some b →
+      r.start r.depth + b.size ≤ pos ∧ window (ftoks doc.kids) (pos - b.size) b.size = b.toks) := by
+  have I := innermost h
+  refine ⟨fun h0 => ?_, fun hne => ?_, fun a ha => nodeAfter_toks h a ha,
+    fun b hb => nodeBefore_toks h b hb⟩
+  · have ha := (nodeAfter_struct r).1 h0
+    have hb := (nodeBefore_struct r).1 h0
+    have hidx := I.idx_le
+    have hoff := I.off
+    have hepos := I.epos
+    refine ⟨ha, hb, ?_, ?_, fun he => ?_, fun he => ?_⟩
+    · rw [ha, List.getElem?_eq_none_iff]; omega
+    · rw [hb]
+      constructor
+      · intro hn
+        by_cases hi : r.index r.depth = 0
+        · exact hi
+        · rw [if_neg hi, List.getElem?_eq_none_iff] at hn; omega
+      · intro hi; rw [if_pos hi]
+    · rw [he, List.take_length] at hepos
+      show pos = r.start r.depth + fsize r.parent.kids
+      omega
+    · rw [he] at hepos
+      simp only [List.take_zero, fsize_nil] at hepos
+      omega
+  · obtain ⟨s, m, hc, hlt⟩ := I.inText hne
+    exact ⟨s, m, hc, hlt, (nodeAfter_struct r).2 s m hne hc, (nodeBefore_struct r).2 s m hne hc⟩
+
+/-- the filter of `marks()`: a mark stays unless its type is non-inclusive and the node on the other
+    side is missing or lacks it -/
+def keepMark (S : Schema) (other : Option Node) (m : Mark) : Bool :=
+  (S.markType m.ty).inclusive ||
+    (match other with
+     | some o => m.isInSet o.marks
+     | none => false)
+
+/-- **marks()**, the documented rule: an empty parent gives `[]`; inside a text node its marks (which
+    are also the marks of `node_before` and `node_after`); at a boundary the marks of the node before
+    — or, when there is none, of the node after — minus every mark whose type is non-inclusive,
+    unless the node on the other side carries it too -/
+theorem marks_spec (S : Schema) (doc : Node) (pos : Nat) (r : RPos) (h : doc.resolve pos = some r) :
+    (fsize r.parent.kids = 0 → r.marks S = []) ∧
+    (r.textOffset ≠ 0 → ∃ s m, r.parent.kids[r.index r.depth]? = some (.text s m) ∧ r.marks S = m ∧
+      (∀ b, r.nodeBefore = some b → b.marks = m) ∧ (∀ a, r.nodeAfter = some a → a.marks = m)) ∧
+    (fsize r.parent.kids ≠ 0 → r.textOffset = 0 →
+      (r.nodeBefore.isSome ∨ r.nodeAfter.isSome) ∧
+      r.marks S =
+        match r.nodeBefore, r.nodeAfter with
+        | some b, a => b.marks.filter (keepMark S a)
+        | none, some a => a.marks.filter (keepMark S none)
+        | none, none => []) := by
+  have I := innermost h
+  have hkeep : ∀ ms o, RPos.dropNonInclusive S ms o = ms.filter (keepMark S o) := by
+    intro ms o
+    unfold RPos.dropNonInclusive keepMark
+    apply List.filter_congr
+    intro mk _
+    cases o <;> cases (S.markType mk.ty).inclusive <;> simp
+  refine ⟨fun h0 => by simp [RPos.marks, h0], fun hne => ?_, fun hsz h0 => ?_⟩
+  · obtain ⟨s, m, hc, hm⟩ := marks_in_text S doc pos r h hne
+    refine ⟨s, m, hc, hm, fun b hb => ?_, fun a ha => ?_⟩
+    · rw [(nodeBefore_struct r).2 s m hne hc] at hb
+      split at hb
+      · simp only [Option.some.injEq] at hb; subst hb; rfl
+      · simp at hb
+    · rw [(nodeAfter_struct r).2 s m hne hc] at ha
+      split at ha
+      · simp only [Option.some.injEq] at ha; subst ha; rfl
+      · simp at ha
+  · have ha := (nodeAfter_struct r).1 h0
+    have hb := (nodeBefore_struct r).1 h0
+    have hsome : r.nodeBefore.isSome ∨ r.nodeAfter.isSome := by
+      by_cases hi : r.index r.depth = 0
+      · right
+        rw [ha, hi]
+        cases hk : r.parent.kids with
+        | nil => rw [hk] at hsz; simp at hsz
+        | cons c cs => simp
+      · left
+        rw [hb, if_neg hi]
+        have := I.idx_le
+        rw [List.getElem?_eq_getElem (by omega)]; rfl
+    refine ⟨hsome, ?_⟩
+    unfold RPos.marks
+    simp only [hsz, h0, if_false, ne_eq, not_true_eq_false]
+    rw [← ha, ← hb]
+    cases hB : r.nodeBefore with
+    | some b => simp only [hkeep]
+    | none =>
+      cases hA : r.nodeAfter with
+      | some a => simp only [hkeep]
+      | none => rfl
 
 end PM.C09
